@@ -333,11 +333,19 @@ def certificate(o, sp_scaled, vals):
         d = np.abs(mu - m)
         d[used] = np.inf
         best = float(np.min(d))
-        cand = np.nonzero(d <= best + 1e-7 * scale)[0]
+        cand = np.nonzero(d <= best + 1e-10 * scale)[0]      # ties only (well inside the 2^-30 of the value clause)
         j = int(cand.min() if lbfam else cand.max())
         used[j] = True
         ids.append(j + 1)
     return ids
+
+
+def zero_sum_columns(B, cls):
+    """amplitudes whose B column is not null but sums to zero, evaluated exactly as the dense frequency path
+    evaluates it (M.toarray().sum(axis=0)): an exact structural observation of the input"""
+    Bd = csr_matrix(B).toarray()
+    cs = Bd.sum(axis=0)
+    return [i + 1 for i in range(Bd.shape[0]) if cls[i] == "both" and cs[i] == 0]
 
 
 def make_event(eid, impl, prob, o, K, B, gen, panel=None, want_raw=False):
@@ -347,7 +355,8 @@ def make_event(eid, impl, prob, o, K, B, gen, panel=None, want_raw=False):
     if obs["exc"] == "":
         obs["res"] = residuals(o, K, B, vals, vecs)
         cert = certificate(o, [x * prob["s"] for x in prob["sp"]], vals)
-    e = dict(id=eid, p=dict(n=prob["n"], cls=prob["cls"], sp=[rat(x) for x in prob["sp"]], s=rat(prob["s"])),
+    e = dict(id=eid, p=dict(n=prob["n"], cls=prob["cls"], sp=[rat(x) for x in prob["sp"]], s=rat(prob["s"]),
+                            zs=zero_sum_columns(B, prob["cls"])),
              o=dict(o), cert=cert, obs=obs, gen=gen)
     if want_raw:
         return e, vals, vecs
@@ -620,7 +629,11 @@ def run_family(prop, family, tier, seed, build, impl=None, skip_mc=False, max_la
     if max_lattice is not None and len(cases) > max_lattice:
         cases = random.Random(seed).sample(cases, max_lattice)
     pcache = {}
+    spec_only = 0
     for (p, o) in cases:
+        if len(p["zs"]):
+            spec_only += 1              # a prescribed zero column sum is exercised at model level only
+            continue
         prob = problem_from_tla(p)
         opts = opts_from_tla(o)
         key = json.dumps([prob["n"], prob["cls"], [frac_pair(x) for x in prob["sp"]], frac_pair(prob["s"])])
@@ -652,6 +665,9 @@ def run_family(prop, family, tier, seed, build, impl=None, skip_mc=False, max_la
             sp = reference_spectrum(K, B, cls)
         except np.linalg.LinAlgError:
             excluded["K not positive definite on its active amplitudes"] += 1
+            return
+        if not sp:
+            excluded["no active amplitude"] += 1
             return
         if family == "lb" and any(abs(float(x) - 1.0) < 1e-3 for x in sp):
             excluded["reversed reference load within 1e-3 of critical (KG - K singular)"] += 1
@@ -732,6 +748,7 @@ def run_family(prop, family, tier, seed, build, impl=None, skip_mc=False, max_la
     tally = collections.Counter(v[0] for v in verdicts.values())
     rep.cov["evaluations"] = len(events)
     rep.cov["lattice_cases_replayed"] = n_lattice
+    rep.cov["lattice_cases_model_level_only"] = spec_only
     rep.cov["package_and_random_events"] = len(events) - n_lattice
     rep.cov["verdicts"] = dict(tally)
     rep.cov["excluded_inputs"] = dict(excluded)
